@@ -55,7 +55,7 @@ def rule_stego(ctx, res):
                       'evaluated on a {}x{} image, {} planes, {} data bytes, '
                       'all contents symbolic'.format(*XC.PNG_DIMS),
                       'the .p8.png pixel codec does not round-trip: '
-                      '{}'.format(d), pe.wf.loc)
+                      '{}'.format(d), pe.wf.loc, semantic=True)
             return
     except AnalysisError:
         pass
